@@ -224,6 +224,10 @@ def run(ctx):
     if st.wcases == 0 and getattr(ctx, "harness_ok", False):
         ctx.broken("harness produced no createBackendRef weight cases")
 
+    ctx.dependency("C03", "'invalid backends keep their share and answer 500' and 'a zero-weight backend gets no traffic' are "
+                          "statements about what NGINX does with the split_clients variable and the upstreams it names: "
+                          "every variable and upstream the rule uses must be defined by the same file set")
+
     ctx.finish({
         "evaluations": st.evaluations + st.e2e,
         "distinct_nontrivial": len(st.nontrivial),
